@@ -1144,6 +1144,21 @@ class _Identifiers:
 
     def visitControlLine(self, node):
         self.check_declared(node)
+        if (
+            self.compiler.enable_loop
+            and node.keyword == "for"
+            and not node.isend
+            and "loop" not in self.declared
+            and "loop" not in self.locally_declared
+        ):
+            # a loop context will be generated for this "for" if "loop" is
+            # mentioned anywhere inside it, including in nested callables
+            # such as the body of a <%call>; the stack it is pushed on
+            # belongs to this callable
+            loop_variable = LoopVariable()
+            node.accept_visitor(loop_variable)
+            if loop_variable.detected:
+                self.undeclared.add("loop")
 
     def visitCode(self, node):
         if not node.ismodule:
@@ -1319,4 +1334,13 @@ class LoopVariable:
         self._loop_reference_detected(node)
 
     def visitExpression(self, node):
+        self._loop_reference_detected(node)
+
+    def visitCallTag(self, node):
+        self._loop_reference_detected(node)
+
+    def visitCallNamespaceTag(self, node):
+        self._loop_reference_detected(node)
+
+    def visitIncludeTag(self, node):
         self._loop_reference_detected(node)
